@@ -552,6 +552,14 @@ def trajectory_and_simulation_aliases(ctx):
                 if abs(o[a] - sign * o[tgt]) > 1e-7 * (1 + abs(o[tgt])):
                     ctx.violation("simalias/read", {"spec": spec, "alias": a, "observation": o}, what="simulation: alias %s does not read %+d * %s" % (a, sign, tgt))
                     break
+        # recorded / exported outputs through an alias: the (signed) values of the variable at every step
+        ex = res.get("exported") or {}
+        for a, tgt, sign in spec["aliases"]:
+            if a in ex:
+                want = [sign * o[tgt] for o in res["obs"]]
+                if len(ex[a]) != len(want) or any(abs(x - y) > 1e-5 * (1 + abs(y)) for x, y in zip(ex[a], want)):
+                    ctx.violation("simalias/recorded-output", {"spec": spec, "alias": a, "exported": ex[a], "expected": want},
+                                  what="simulation: output %s (= %+d * %s) recorded as %s, the steps gave %s" % (a, sign, tgt, ex[a], want))
         for nm, val in spec.get("free_start", {}).items():
             got = res["obs"][0][nm]
             if abs(got - float(Fraction(val))) > 1e-7:
